@@ -26,12 +26,14 @@ uint64_t pmr_next (pmr_t *g);				/* s' = 16807*s mod (2^31-1), 64-bit arithmetic
 uint64_t pmr_rand (pmr_t *g, uint64_t maxv);		/* RFC expression on s' */
 
 /* dense GF(2) matrix: rows x cols bits, row-major, W = words per row */
-typedef struct { int rows, cols, W; uint64_t *w; } bitmat;
+typedef struct { int rows, cols, W; uint64_t *w; int *sp_ptr, *sp_col, *sp_cptr, *sp_row; /* lazily built row index (large matrices), dropped on any change */ } bitmat;
 bitmat	*bm_new (int rows, int cols);
 void	 bm_free (bitmat *m);
+void	 bm_drop_index (bitmat *m);
+void	 bm_build_index (bitmat *m);	/* gf2_peel builds it on first use for large matrices; harnesses that count allocations build it up front */
 static inline int  bm_get (const bitmat *m, int r, int c) { return (int) ((m->w[(size_t) r * m->W + (c >> 6)] >> (c & 63)) & 1); }
-static inline void bm_set (bitmat *m, int r, int c) { m->w[(size_t) r * m->W + (c >> 6)] |= (uint64_t) 1 << (c & 63); }
-static inline void bm_clr (bitmat *m, int r, int c) { m->w[(size_t) r * m->W + (c >> 6)] &= ~((uint64_t) 1 << (c & 63)); }
+static inline void bm_set (bitmat *m, int r, int c) { if (m->sp_ptr) bm_drop_index (m); m->w[(size_t) r * m->W + (c >> 6)] |= (uint64_t) 1 << (c & 63); }
+static inline void bm_clr (bitmat *m, int r, int c) { if (m->sp_ptr) bm_drop_index (m); m->w[(size_t) r * m->W + (c >> 6)] &= ~((uint64_t) 1 << (c & 63)); }
 static inline uint64_t *bm_row (const bitmat *m, int r) { return m->w + (size_t) r * m->W; }
 
 /* H of LDPC-Staircase (k, n, N1, seed) per RFC 5170 §6.2; columns are indexed by ESI
@@ -42,6 +44,7 @@ bitmat	*rfc5170_H (int k, int n, int N1, uint64_t seed, int *extra_added);
 /* ---- GF(2) erasure algebra on an ESI-indexed parity-check matrix ---- */
 /* known: bitset over cols (W words). peel: repeatedly solve rows with exactly one unknown; updates known in place. */
 void	gf2_peel (const bitmat *H, uint64_t *known);
+int	gf2_peel_selfcheck (const bitmat *H, const uint64_t *known);	/* dense and indexed implementation agree? 0 = yes */
 /* rank of the submatrix made of the columns NOT in known; *nunknown receives their number */
 int	gf2_rank_unknown (const bitmat *H, const uint64_t *known, int *nunknown);
 /* generic rank of a bit matrix (destroys a copy) */
